@@ -146,14 +146,16 @@ class Effect:
     """A call found in a function or one of the helpers it calls, with the
     binding under which its arguments should be read."""
     __slots__ = ('call', 'fn', 'bind', 'chain', 'facts', 'outer',
-                 'outer_with')
+                 'outer_with', 'path')
 
     def __init__(self, call, fn, bind, chain, facts, outer=frozenset(),
-                 outer_with=frozenset()):
+                 outer_with=frozenset(), path=()):
         self.call, self.fn, self.bind, self.chain = call, fn, bind, chain
         self.facts = facts
         self.outer = outer      # control atoms of the calls leading here
         self.outer_with = outer_with   # `with` contexts of those calls
+        # ((fn, node), ...) from the analysed function down to this call
+        self.path = path + ((fn, call),)
 
     def arg(self, pos=None, kw=None):
         """Atoms of a positional/keyword argument (empty set if absent)."""
@@ -316,17 +318,17 @@ class Facts:
         pred(Effect) true."""
         out = []
         self._effects(fn, None, pred, depth, (), set(), out, frozenset(),
-                      frozenset())
+                      frozenset(), ())
         return out
 
     def _effects(self, fn, bind, pred, depth, chain, stack, out, outer,
-                 owith):
+                 owith, path):
         if fn.fq in stack:
             return
         stack = stack | {fn.fq}
         nested_called = set()
         for c in Q.calls(fn.node, nested=False):
-            eff = Effect(c, fn, bind, chain, self, outer, owith)
+            eff = Effect(c, fn, bind, chain, self, outer, owith, path)
             if pred(eff):
                 out.append(eff)
             if depth > 0:
@@ -340,7 +342,7 @@ class Facts:
                                   outer | frozenset(self.control(
                                       c, fn, bind)),
                                   owith | frozenset(self.withs(
-                                      c, fn, bind)))
+                                      c, fn, bind)), path + ((fn, c),))
                 # repository functions passed as values (callbacks,
                 # functools.partial, map, ...): unbound
                 for a in list(c.args) + [k.value for k in c.keywords]:
@@ -356,7 +358,8 @@ class Facts:
                                 r[1], None, pred, depth - 1,
                                 chain + (r[1].qualname,), stack, out,
                                 outer | frozenset(self.control(c, fn, bind)),
-                                owith | frozenset(self.withs(c, fn, bind)))
+                                owith | frozenset(self.withs(c, fn, bind)),
+                                path + ((fn, c),))
         # nested functions never called directly (callbacks): unbound
         for n in walk_no_nested(fn.node):
             if isinstance(n, (ast.FunctionDef, ast.AsyncFunctionDef)) and \
@@ -365,7 +368,8 @@ class Facts:
                 self._effects(n._func, None, pred, depth,
                               chain + (n._func.qualname,), stack, out,
                               outer | frozenset(self.control(n, fn, bind)),
-                              owith | frozenset(self.withs(n, fn, bind)))
+                              owith | frozenset(self.withs(n, fn, bind)),
+                              path + ((fn, n),))
 
     def _is_nested_in(self, callee, fn):
         p = getattr(callee.node, '_parent', None)
@@ -627,6 +631,64 @@ class Facts:
                                 n))
         return out
 
+    def _dom_candidates(self, fn, node):
+        """Statements standing for `node` in dominance questions: its own
+        statement and every enclosing loop statement (a loop that may run
+        zero times still counts as "the step that does it for every
+        element")."""
+        g = self.cfg(fn)
+        out = []
+        try:
+            out.append(g.stmt_of(node))
+        except Exception:
+            pass
+        n = node
+        while n is not None and n is not fn.node:
+            n = getattr(n, '_parent', None)
+            if isinstance(n, (ast.For, ast.While)) and n in g.succ:
+                out.append(n)
+        return out
+
+    def always_before(self, a, b):
+        """Effect `a` is performed on every path that reaches effect `b`
+        (both found from the same analysed function; compared in the
+        innermost function their call paths share)."""
+        i = 0
+        while i < len(a.path) - 1 and i < len(b.path) - 1 and \
+                a.path[i][1] is b.path[i][1]:
+            i += 1
+        fa, na = a.path[i]
+        fb, nb = b.path[i]
+        if fa is not fb:
+            return False
+        g = self.cfg(fa)
+        try:
+            tb = g.stmt_of(nb)
+        except Exception:
+            return False
+        for c in self._dom_candidates(fa, na):
+            if c is not tb and g.dominates(c, tb):
+                return True
+        return False
+
+    def only_called_from(self, fn, allowed, _depth=0):
+        """fn is one of `allowed` (fq names), or a private helper all of
+        whose callers satisfy this recursively."""
+        if fn is None:
+            return False
+        if fn.fq in allowed:
+            return True
+        name = fn.node.name
+        if _depth > 3 or not name.startswith('_') or (
+                name.startswith('__') and name.endswith('__')):
+            return False
+        callers = Q.find_callers(self.repo, fn, by_name_ok=False)
+        if not callers:
+            return False
+        return all(self.only_called_from(self.repo.enclosing_func(c),
+                                         allowed, _depth + 1)
+                   for m, c, exact in callers)
+
     def before(self, fn, pred, node, depth=2):
         """Some statement of fn that performs an effect matching pred
         (directly, or in a helper that must perform it) dominates the
@@ -640,12 +702,9 @@ class Facts:
                 if callee is not None:
                     ok = self.must(callee, pred, depth - 1)
             if ok:
-                try:
-                    st = g.stmt_of(c)
-                except Exception:
-                    continue
-                if st is not tgt and g.dominates(st, tgt):
-                    return True
+                for st in self._dom_candidates(fn, c):
+                    if st is not tgt and g.dominates(st, tgt):
+                        return True
         return False
 
     # -- path facts ----------------------------------------------------------
